@@ -346,7 +346,16 @@ impl<D: DataMut> ReaderFrom for VecZnx<D> {
         let len: usize = reader.read_u64::<LittleEndian>()? as usize;
 
         // Validate metadata consistency: n * cols * size * sizeof(i64) must match data length.
-        let expected_len: usize = new_n * new_cols * new_size * size_of::<i64>();
+        let expected_len: usize = new_n
+            .checked_mul(new_cols)
+            .and_then(|x| x.checked_mul(new_size))
+            .and_then(|x| x.checked_mul(size_of::<i64>()))
+            .ok_or_else(|| {
+                std::io::Error::new(
+                    std::io::ErrorKind::InvalidData,
+                    format!("VecZnx metadata overflow: n={new_n} * cols={new_cols} * size={new_size} * 8"),
+                )
+            })?;
         if expected_len != len {
             return Err(std::io::Error::new(
                 std::io::ErrorKind::InvalidData,
@@ -361,6 +370,23 @@ impl<D: DataMut> ReaderFrom for VecZnx<D> {
             return Err(std::io::Error::new(
                 std::io::ErrorKind::InvalidData,
                 format!("VecZnx buffer too small: self.data.len()={} < read len={len}", buf.len()),
+            ));
+        }
+
+        // The capacity recorded in the stream must be consistent with the limb count and must fit
+        // the receiver's buffer: `set_size` trusts `max_size`.
+        let capacity_fits: bool = new_n
+            .checked_mul(new_cols)
+            .and_then(|x| x.checked_mul(new_max_size))
+            .and_then(|x| x.checked_mul(size_of::<i64>()))
+            .is_some_and(|cap| cap <= buf.len());
+        if new_size > new_max_size || !capacity_fits {
+            return Err(std::io::Error::new(
+                std::io::ErrorKind::InvalidData,
+                format!(
+                    "VecZnx capacity inconsistent: size={new_size}, max_size={new_max_size}, n={new_n}, cols={new_cols}, self.data.len()={}",
+                    buf.len()
+                ),
             ));
         }
         reader.read_exact(&mut buf[..len])?;
